@@ -450,6 +450,9 @@ class FakeDataFrame:
 class FakePD:
     DataFrame = FakeDataFrame
 
+    def __getattr__(self, k):
+        raise HarnessError(f"pandas.{k} is not modelled in symbolic runs (display-only stand-in)")
+
 
 # ----------------------------------------------------------------------------
 # world switching
@@ -499,7 +502,7 @@ class World:
                 if d.get("math") is real_math or isinstance(d.get("math"), MathShim):
                     self._set(mod, "math", MathShim())
                 if mod.__name__ == "votekit.pref_profile":
-                    self._set(mod, "pd", FakePD)
+                    self._set(mod, "pd", FakePD())
             if mod.__name__ == "votekit.utils":
                 self._set(mod, "print", _quiet)
         for (mn, attr), val in (extra or {}).items():
